@@ -204,6 +204,37 @@ def judge(family, case, rec):
             rec.violation("C20:zero-not-zero", family, case, "noise.zero()(n) is not identically 0")
         return
     cdf, mu, var, kurt, (lo, hi) = _law(kind, params)
+    # many small calls: the draws of one call must be independent of one another and have the full variance whatever n is
+    if var > 0:
+        for nsmall in (1, 2, 5):
+            calls = 6000
+            np.random.seed((s + nsmall) % (2**32))
+            blocks = np.array([f(nsmall) for _ in range(calls)], dtype=float)
+            if blocks.shape != (calls, nsmall):
+                rec.violation("C20:%s-shape" % kind, family, case, "n=%d gives arrays of shape %r" % (nsmall, blocks.shape[1:]))
+                return
+            flat = blocks.ravel()
+            ksn, epsn = S.ks_distance(flat, cdf), S.dkw_eps(len(flat))
+            rec.count("small-n-aggregates")
+            if ksn > epsn:
+                rec.violation("C20:%s-law-for-small-n" % kind, family, case,
+                              "%d calls with n=%d: the pooled draws deviate by %.3f from the documented law (band %.3f); pooled variance %.4g, documented %.4g"
+                              % (calls, nsmall, ksn, epsn, float(flat.var()), var))
+                return
+            if nsmall > 1:
+                # variance of the per-call means must be var/n (independent draws within a call)
+                zc = S.z_var(blocks.mean(axis=1), mu, var / nsmall, kurt / nsmall)
+                rec.max("max|z|-per-call-mean-variance", abs(zc))
+                if abs(zc) > S.Z_SUSPECT:
+                    def rerun_c(r, n_, nsmall=nsmall):
+                        np.random.seed(util.derive_seed("C20call", kind, params, s, r, nsmall) % (2**32))
+                        b = np.array([f(nsmall) for _ in range(min(n_ // 4, 60000))], dtype=float)
+                        return S.z_var(b.mean(axis=1), mu, var / nsmall, kurt / nsmall)
+                    bad, zs = S.confirm(rerun_c, calls)
+                    if bad:
+                        rec.violation("C20:%s-draws-within-a-call-dependent" % kind, family, case,
+                                      "n=%d: the variance of the per-call means is not var/n (z = %s): the draws of one call are not independent" % (nsmall, ["%.1f" % v for v in zs]))
+                        return
     np.random.seed(s)
     x = f(N)
     if x.shape != (N,) or not np.isfinite(x).all():
